@@ -29,6 +29,9 @@ def w_summary(kind, suffix='', share=None):
 def w_task(task):
     name, kind, idx, params = task
     t0 = time.time()
+    if params and 'cross_mod' in params:
+        import os
+        os.environ['VERIF_M_CROSS_MOD'] = str(params['cross_mod'])
     try:
         import props_v1
         fn = getattr(props_v1, 'ob_' + name)
